@@ -24,15 +24,21 @@ pub fn gcd<const BITS: usize, const LIMBS: usize>(
         swap(&mut a, &mut b);
     }
     while b != Uint::ZERO {
+        #[cfg(recmo_uint_verif)]
+        crate::__verif::tick(crate::__verif::LOOP_GCD);
         debug_assert!(a >= b);
         let m = LehmerMatrix::from(a, b);
         if m == LehmerMatrix::IDENTITY {
             // Lehmer step failed to find a factor, which happens when
             // the factor is very large. We do a regular Euclidean step, which
             // will make a lot of progress since `q` will be large.
+            #[cfg(recmo_uint_verif)]
+            crate::__verif::hit(crate::__verif::GCD_EUCLID_STEP);
             a %= b;
             swap(&mut a, &mut b);
         } else {
+            #[cfg(recmo_uint_verif)]
+            crate::__verif::hit(crate::__verif::GCD_LEHMER_STEP);
             m.apply(&mut a, &mut b);
         }
     }
@@ -87,12 +93,16 @@ pub fn gcd_extended<const BITS: usize, const LIMBS: usize>(
     let mut t1 = Uint::ONE;
     let mut even = true;
     while b != Uint::ZERO {
+        #[cfg(recmo_uint_verif)]
+        crate::__verif::tick(crate::__verif::LOOP_GCDX);
         debug_assert!(a >= b);
         let m = LehmerMatrix::from(a, b);
         if m == LehmerMatrix::IDENTITY {
             // Lehmer step failed to find a factor, which happens when
             // the factor is very large. We do a regular Euclidean step, which
             // will make a lot of progress since `q` will be large.
+            #[cfg(recmo_uint_verif)]
+            crate::__verif::hit(crate::__verif::GCDX_EUCLID_STEP);
             let q = a / b;
             a -= q * b;
             swap(&mut a, &mut b);
@@ -102,6 +112,8 @@ pub fn gcd_extended<const BITS: usize, const LIMBS: usize>(
             swap(&mut t0, &mut t1);
             even = !even;
         } else {
+            #[cfg(recmo_uint_verif)]
+            crate::__verif::hit(crate::__verif::GCDX_LEHMER_STEP);
             m.apply(&mut a, &mut b);
             m.apply(&mut s0, &mut s1);
             m.apply(&mut t0, &mut t1);
@@ -162,12 +174,16 @@ pub fn inv_mod<const BITS: usize, const LIMBS: usize>(
     let mut t1 = Uint::ONE;
     let mut even = true;
     while b != Uint::ZERO {
+        #[cfg(recmo_uint_verif)]
+        crate::__verif::tick(crate::__verif::LOOP_INVMOD);
         debug_assert!(a >= b);
         let m = LehmerMatrix::from(a, b);
         if m == LehmerMatrix::IDENTITY {
             // Lehmer step failed to find a factor, which happens when
             // the factor is very large. We do a regular Euclidean step, which
             // will make a lot of progress since `q` will be large.
+            #[cfg(recmo_uint_verif)]
+            crate::__verif::hit(crate::__verif::INVMOD_EUCLID_STEP);
             let q = a / b;
             a -= q * b;
             swap(&mut a, &mut b);
@@ -175,6 +191,8 @@ pub fn inv_mod<const BITS: usize, const LIMBS: usize>(
             swap(&mut t0, &mut t1);
             even = !even;
         } else {
+            #[cfg(recmo_uint_verif)]
+            crate::__verif::hit(crate::__verif::INVMOD_LEHMER_STEP);
             m.apply(&mut a, &mut b);
             m.apply(&mut t0, &mut t1);
             even ^= !m.4;
